@@ -567,12 +567,12 @@ func navCheck(w *mc.Worker, prog *gen.Program, pr *gen.Printed, text string, sta
 		}
 	}
 	for i, d := range prog.Vars {
+		for ui < len(uses) && uses[ui].inDecl == i {
+			resolve(uses[ui]) // an origin sees the earlier declarations only
+			ui++
+		}
 		if _, dup := declared[d.Name.Name]; !dup {
 			declared[d.Name.Name] = d
-		}
-		for ui < len(uses) && uses[ui].inDecl == i {
-			resolve(uses[ui])
-			ui++
 		}
 	}
 	for ; ui < len(uses); ui++ {
